@@ -25,6 +25,12 @@ CHECKS = {
  "C11": ("exhaustive enumeration of regex conditions x candidate strings, before/after comparison",
          "Regexes are every concatenation of <=2 (thorough <=3) atoms from a 34-atom alphabet (literals, classes, groups, alternation, repetition, flags, escapes) inside each of 22 anchor/flag contexts, with both operators and inside AND/OR/parenthesised/duplicated conditions. Every condition that RewriteRegexConditions changes is evaluated before and after with the real EvalBool on every string of length <=4 (5) over {a,b,c,A,newline,x} and on every substituted literal and its neighbours; each literal must be matched in full by the regex and there must be at most 100.",
          "Go's regexp is the matcher for the original side. Strings longer than the bound are covered only through the literal-neighbour candidates.", "3/C11"),
+ "C10": ("exhaustive enumeration of structured conditions x boundary points against a structural reference",
+         "Conditions are 1-3 atoms joined by AND in every parenthesisation; time atoms = 5 operators x time on either side x 16 literal forms (integer ns incl. MinTime/MaxTime/int64 extremes, RFC3339, date, date-time, duration, now()±d, upper-case TIME), non-time atoms = tag/field predicates, parenthesised ORs, true. Each is split by the real ConditionExpr and compared with the structural meaning at every timestamp b-1,b,b+1 around every bound plus MinTime, MaxTime, 0, x 8 tag/field combinations, in two zones.",
+         "Reference meaning is computed from the generator's structure with int64 comparisons. Points are valid timestamps only.", "3/C10"),
+ "C18": ("history exploration: every SetTimeRange sequence replayed on fresh statements, invariants in every state",
+         "Roots are SELECTs with no WHERE or a 1-2 (3) atom condition from the condition model (incl. time on the right, upper-case TIME, bare top-level OR); every sequence of <=2 (3) SetTimeRange calls over 3 windows is replayed on a freshly parsed statement and after every call: ConditionExpr yields exactly the last window, a semantic evaluation of the resulting condition selects exactly the window's points satisfying the original non-time predicates, and the condition does not grow.",
+         "The semantic oracle is the harness's own evaluator of time comparisons; states are deduplicated by canonical AST hash.", "3/C18"),
 }
 ALL = ["C%02d" % i for i in range(1, 21)]
 NOT_YET = "check not built yet in this revision of /verif (work in progress; see DESIGN.md section 3 for the planned bounded-exhaustive check)"
